@@ -49,6 +49,9 @@ func (e *Encoder) call(fr *frame, ci ssa.CallInstruction) *SVal {
 		args = append(args, e.val(fr, a))
 	}
 	pos := ci.Pos()
+	if e.pure == 0 && len(e.inlineStack) == 0 && e.contract != nil && len(e.contract.AtCalls) > 0 {
+		e.atCall(fr, cm, ci)
+	}
 	if e.pure == 0 {
 		for _, a := range args {
 			if a != nil && a.K != KStruct && a.K != KTuple && a.K != KArray {
@@ -63,6 +66,9 @@ func (e *Encoder) call(fr *frame, ci ssa.CallInstruction) *SVal {
 		if !nz.IsTrue() {
 			e.oblige("nil", fr.anchorFor(e, cm.Value, cm.Value.Name())+"."+cm.Method.Name(), "method call on a nil interface value", nz, pos)
 			e.assume(nz)
+		}
+		if recv.Dyn == nil {
+			e.knownDynType(recv)
 		}
 		if recv.Dyn != nil {
 			if callee := e.w.Prog.LookupMethod(recv.Dyn, cm.Method.Pkg(), cm.Method.Name()); callee != nil {
@@ -92,6 +98,12 @@ func (e *Encoder) call(fr *frame, ci ssa.CallInstruction) *SVal {
 		if impls := e.w.implementers(cm.Value.Type(), cm.Method); len(impls) > 0 && len(impls) <= 6 {
 			return e.dispatchInvoke(fr, recv, impls, cm.Method, args, ci, resT, key)
 		}
+		if len(args) == 0 && e.w.isModuleInterface(cm.Value.Type()) {
+			// accessor methods (no arguments) of the module's own interfaces - Command.Name/Operation/
+			// Request/Response/RemoteLUN, Payload.Descriptor/... - are pure functions of the receiver
+			e.trusted["accessor methods without arguments of "+typeKey(cm.Value.Type())+" are pure (equal receivers give equal results, no side effects)"] = true
+			return e.pureGetter(key, recv, resT)
+		}
 		return e.unmodelledCall(fr, key, append([]*SVal{recv}, args...), ci, resT)
 	}
 	if callee := cm.StaticCallee(); callee != nil {
@@ -106,6 +118,12 @@ func (e *Encoder) call(fr *frame, ci ssa.CallInstruction) *SVal {
 	fv := e.val(fr, cm.Value)
 	if fv.Fn != nil {
 		return e.callStatic(fr, fv.Fn, args, fv.Bind, ci, resT)
+	}
+	if fv.Tag != nil && fv.Tag.Op == "int" && int64(fv.Tag.V) == noopFuncTag {
+		return &SVal{K: KTuple, Typ: resT} // context cancel function
+	}
+	if r, ok := e.decodeFuncCall(fr, fv, args, ci, resT); ok {
+		return r
 	}
 	if cands := e.w.funcCandidates(cm.Signature()); len(cands) > 0 && len(cands) <= 8 {
 		return e.dispatchFunc(fr, fv, cands, args, ci, resT)
@@ -173,6 +191,16 @@ func (e *Encoder) inlineCall(fr *frame, callee *ssa.Function, args []*SVal, bind
 func (fr *frame) reachOverride(t *Term) {}
 
 func (e *Encoder) unmodelledCall(fr *frame, name string, args []*SVal, ci ssa.CallInstruction, resT types.Type) *SVal {
+	if strings.Contains(name, "prometheus/promauto.New") {
+		e.trusted["promauto.New* return usable (non-nil) metrics"] = true
+		r := e.freshResult("metric", resT)
+		if r.K == KIface {
+			e.assumeFact(e.c.Not(e.c.Eq(r.Tag, e.c.Int(0))))
+		} else if r.K == KPtr {
+			e.assumeFact(e.c.Not(e.c.Eq(r.T, e.c.NilRef())))
+		}
+		return r
+	}
 	if e.initMode {
 		// package initialisers: dependency functions are assumed not to write this module's variables
 		e.trusted["package initialisers: calls into dependency functions do not modify the module's package-level variables"] = true
@@ -1076,6 +1104,16 @@ func init() {
 		"bufSmall": func(env *Env, n *ast.CallExpr, args []*SVal) *SVal {
 			return env.mkBool(env.e.bufValid(args[0], env.state(), 1<<26))
 		},
+		"sends": func(env *Env, n *ast.CallExpr, args []*SVal) *SVal {
+			e := env.e
+			g := e.get(env.state(), "ghost:sends", Arr(RefS, BV64))
+			return &SVal{K: KScalar, Typ: types.Typ[types.Int], T: e.c.Select(g, e.c.NilRef())}
+		},
+		"metric": func(env *Env, n *ast.CallExpr, args []*SVal) *SVal {
+			e := env.e
+			g := e.get(env.state(), "ghost:metric", Arr(RefS, BV64))
+			return &SVal{K: KScalar, Typ: types.Typ[types.Int], T: e.c.Select(g, args[0].T)}
+		},
 		"bufRoom": func(env *Env, n *ast.CallExpr, args []*SVal) *SVal {
 			// bufRoom(b, front, back): no reallocation is needed to prepend front / append back bytes
 			e := env.e
@@ -1336,6 +1374,7 @@ func (e *Encoder) dispatchInvoke(fr *frame, recv *SVal, impls []types.Type, m *t
 		var rv *SVal
 		if _, isPtr := T.Underlying().(*types.Pointer); isPtr {
 			rv = &SVal{K: KPtr, Typ: T, T: recv.T}
+			e.assume(c.Not(c.Eq(recv.T, c.NilRef()))) // a non-nil interface value of the module's own types never wraps a nil pointer
 		} else {
 			rv = e.load(e.cur, e.cellAddr(recv.T, T))
 		}
@@ -1569,4 +1608,83 @@ func (e *Encoder) smallBound(n *Term, limit int) (int, bool) {
 		}
 	}
 	return 0, false
+}
+
+// atCall evaluates the contract's "at <callee> assert" clauses at a matching call.
+func (e *Encoder) atCall(fr *frame, cm *ssa.CallCommon, ci ssa.CallInstruction) {
+	name := ""
+	switch {
+	case cm.IsInvoke():
+		name = ifaceMethodKey(cm.Value.Type(), cm.Method)
+	case cm.StaticCallee() != nil:
+		name = cm.StaticCallee().String()
+	default:
+		name = "dynamic:" + cm.Value.Type().String()
+	}
+	for _, cl := range e.contract.AtCalls {
+		if !strings.Contains(name, cl.Callee) {
+			continue
+		}
+		env := e.contractEnv(fr, e.contract, nil, e.cur, e.entry)
+		t := env.trClause(cl)
+		tag := cl.Tag
+		if tag == "" {
+			tag = "at." + cl.Callee
+		}
+		o := e.oblige("atcall", tag, "at the call of "+cl.Callee+": "+cl.Text, t, ci.Pos())
+		if o != nil {
+			o.Props = propsOfTag(cl.Tag, e.contract.Props)
+		}
+	}
+}
+
+func (w *World) isModuleInterface(t types.Type) bool {
+	nt, ok := t.(*types.Named)
+	if !ok || nt.Obj().Pkg() == nil {
+		return false
+	}
+	_, isI := t.Underlying().(*types.Interface)
+	return isI && strings.HasPrefix(nt.Obj().Pkg().Path(), modPath)
+}
+
+// pureGetter: result components are uninterpreted functions of the receiver value.
+func (e *Encoder) pureGetter(key string, recv *SVal, resT types.Type) *SVal {
+	c := e.c
+	mk := func(t types.Type, path string) *SVal { return nil }
+	var build func(t types.Type, path string) *SVal
+	build = func(t types.Type, path string) *SVal {
+		v := &SVal{K: kindOf(t), Typ: t}
+		switch u := t.Underlying().(type) {
+		case *types.Tuple:
+			if u.Len() == 1 {
+				return build(u.At(0).Type(), path)
+			}
+			for i := 0; i < u.Len(); i++ {
+				v.Fields = append(v.Fields, build(u.At(i).Type(), fmt.Sprintf("%s.%d", path, i)))
+			}
+			return v
+		case *types.Struct:
+			for i := 0; i < u.NumFields(); i++ {
+				v.Fields = append(v.Fields, build(u.Field(i).Type(), path+"."+u.Field(i).Name()))
+			}
+			return v
+		case *types.Array:
+			return e.freshVal("getter", t)
+		}
+		cs := leafComps(t)
+		ts := make([]*Term, len(cs))
+		for k, cp := range cs {
+			ts[k] = c.App("get:"+key+path+cp.suffix, cp.sort, recv.Tag, recv.T)
+		}
+		r := fromComps(t, ts)
+		e.typeInvariant(r)
+		if r.K == KPtr && (strings.HasSuffix(key, ".Operation") || strings.HasSuffix(key, ".Descriptor")) {
+			// every implementation returns the address of a package-level table entry
+			e.assumeFact(c.Not(c.Eq(r.T, c.NilRef())))
+			e.trusted["Command.Operation() / Payload.Descriptor() return a non-nil pointer (every implementation returns the address of a package-level table entry)"] = true
+		}
+		return r
+	}
+	_ = mk
+	return build(resT, "")
 }
